@@ -1,0 +1,84 @@
+// Copyright 2017-2021 Lei Ni (nilei81@gmail.com) and other contributors.
+//
+// Licensed under the Apache License, Version 2.0 (the "License");
+// you may not use this file except in compliance with the License.
+// You may obtain a copy of the License at
+//
+//     http://www.apache.org/licenses/LICENSE-2.0
+//
+// Unless required by applicable law or agreed to in writing, software
+// distributed under the License is distributed on an "AS IS" BASIS,
+// WITHOUT WARRANTIES OR CONDITIONS OF ANY KIND, either express or implied.
+// See the License for the specific language governing permissions and
+// limitations under the License.
+
+//go:build verif
+// +build verif
+
+package transport
+
+// This file is only compiled with the `verif` build tag. It exports the frame
+// level functions of the TCP transport (tcp.go) so that a simulation harness
+// kept outside of this repository can run them over an in-memory net.Conn.
+// The sending side needs nothing from here: NewTCPConnection and
+// NewTCPSnapshotConnection already accept any net.Conn.
+
+import (
+	"errors"
+	"net"
+
+	"github.com/lni/dragonboat/v4/raftio"
+)
+
+const (
+	// VerifRequestHeaderSize is the size of the frame header.
+	VerifRequestHeaderSize = requestHeaderSize
+	// VerifRaftType is the method value of message batch frames.
+	VerifRaftType = raftType
+	// VerifSnapshotType is the method value of snapshot chunk frames.
+	VerifSnapshotType = snapshotType
+	// VerifMagicNumberSize is the size of the magic number preceding a frame.
+	VerifMagicNumberSize = len(magicNumber)
+)
+
+// VerifFrameHeader is the decoded frame header.
+type VerifFrameHeader struct {
+	Method uint16
+	Size   uint64
+	CRC    uint32
+}
+
+// VerifWriteMessage is writeMessage.
+func VerifWriteMessage(conn net.Conn, method uint16,
+	buf []byte, headerBuf []byte, encrypted bool) error {
+	return writeMessage(conn, requestHeader{method: method}, buf, headerBuf, encrypted)
+}
+
+// VerifReadMagicNumber is readMagicNumber, poison reports whether the poison
+// number was received instead of the magic number.
+func VerifReadMagicNumber(conn net.Conn, magicNum []byte) (poison bool, err error) {
+	err = readMagicNumber(conn, magicNum)
+	if errors.Is(err, errPoisonReceived) {
+		return true, err
+	}
+	return false, err
+}
+
+// VerifReadMessage is readMessage.
+func VerifReadMessage(conn net.Conn,
+	header []byte, rbuf []byte, encrypted bool) (VerifFrameHeader, []byte, error) {
+	h, buf, err := readMessage(conn, header, rbuf, encrypted)
+	return VerifFrameHeader{Method: h.method, Size: h.size, CRC: h.crc}, buf, err
+}
+
+// VerifServeConn runs the receive loop of the TCP transport (serveConn) on
+// conn until it returns.
+func VerifServeConn(conn net.Conn, requestHandler raftio.MessageHandler,
+	chunkHandler raftio.ChunkHandler, encrypted bool) {
+	t := &TCP{
+		requestHandler: requestHandler,
+		chunkHandler:   chunkHandler,
+		encrypted:      encrypted,
+	}
+	t.serveConn(conn)
+}
